@@ -267,6 +267,29 @@ class Run:
                                                                            "ok" if expect == "ok" else "violates " + expect + " as required"))
         return r
 
+    # -- proofs ----------------------------------------------------------------------------
+    def proof(self, module, deps, note="", timeout=900):
+        """TLAPS: every obligation of `module` must be proved (a spec-level statement for unbounded parameters). A failure is a
+        failure of the specification work (CHECK-BROKEN), never a verdict on the code."""
+        d = os.path.join(self.scratch, "tlapm-" + os.path.splitext(module)[0])
+        shutil.rmtree(d, ignore_errors=True)
+        os.makedirs(d)
+        for f in [module] + deps:
+            shutil.copy(os.path.join(SPEC, f), d)
+        t0 = time.time()
+        try:
+            pr = subprocess.run(["tlapm", "--threads", str(NCPU), "--cleanfp", module], cwd=d, capture_output=True, text=True, timeout=timeout)
+        except subprocess.TimeoutExpired:
+            raise Broken("tlapm timed out after %ds on %s" % (timeout, module))
+        out = pr.stdout + pr.stderr
+        m = re.search(r"All (\d+) obligations? proved", out)
+        if not m or pr.returncode != 0:
+            raise Broken("tlapm could not prove %s (spec-level failure, not a verdict on the code):\n%s" % (module, out[-2500:]))
+        self.cov.setdefault("proofs", []).append({"module": module, "obligations_proved": int(m.group(1)), "wall_s": round(time.time() - t0, 1),
+                                                  "cmd": "tlapm --threads %d --cleanfp %s" % (NCPU, module), "note": note})
+        log("  proof %-22s %d obligations proved by TLAPS  %5.1fs" % (module, int(m.group(1)), time.time() - t0))
+        shutil.rmtree(d, ignore_errors=True)
+
     # -- traces ----------------------------------------------------------------------------
     def trace(self, driver, n, tracespec="TraceWire.tla", cfg="TraceWire.cfg", types=None, seed_off=0, chunk=1500, prop=None, extra_env=None, small=False,
               patch_tables=False):
